@@ -136,11 +136,17 @@ def run_check(pid, tier):
     if ok and not th['ok']:
         failed.append(('theorem', f'Properties/{pid}.v', th['log'][-1500:]))
     ext_status = extract.main()
-    bridge_obs = getattr(mod, 'BRIDGE', [])
-    bres = C.build_bridge(bridge_obs, getattr(mod, 'BRIDGE_IMPORTS', '')) if ok and bridge_obs else []
+    from harness import execpins
+    pins = execpins.obligations(pid)
+    bridge_obs = list(getattr(mod, 'BRIDGE', [])) + pins
+    bres = C.build_bridge(bridge_obs, getattr(mod, 'BRIDGE_IMPORTS', '') + (execpins.IMPORTS if pins else '')) \
+        if ok and bridge_obs else []
     obligations += len(bridge_obs)
+    pinned = {n for n, _, _ in pins}
     for name, bok, blog in bres:
         if not bok:
+            if name in pinned:
+                blog = 'source differs from the skeleton recorded in Model/ExecSrc.v: ' + execpins.first_difference(name)
             failed.append(('bridge', name, blog[-800:]))
 
     # 2. generate, drive the implementation, monitors
@@ -221,7 +227,7 @@ def run_check(pid, tier):
                                      model=ev['answers'].get(i)))
         p = C.write_replay(pid, payload)
         for f in failed[:5]:
-            print(f'  failed obligation: {f[0]}: {f[1]}')
+            print(f'  failed obligation: {f[0]}: {f[1]}' + (f' -- {f[2][:400]}' if 'Model/ExecSrc.v' in str(f[2]) else ''))
         print(f'VIOLATION property={pid} replay={p} no-failing-input-found')
         violations = 1
         exit_code = 1
